@@ -148,11 +148,20 @@ def main(tier):
         vias = ["direct"]
         if appended is not None and appended["t"] != "paste":
             vias += ["paste", "include"] if tier == "thorough" else [rnd.choice(["paste", "include"])]
+        if f["f"] == "dup_name" and m["doc"][f["i"] - 1]["t"] in ("type", "enum", "server"):
+            vias.append("paste_twice")
         for via in vias:
             files = {}
             blocks = fd
             vs = list(sites)
-            if via == "paste":
+            if via == "paste_twice":
+                # the duplicate arises from expanding one macro twice (directly and through another macro)
+                orig = m["doc"][f["i"] - 1]
+                rest = m["doc"][:f["i"] - 1] + m["doc"][f["i"]:]
+                blocks = rest + [{"t": "paste", "name": "@fm"}, {"t": "macro", "name": "@fm", "items": [orig]},
+                                 {"t": "macro", "name": "@fm2", "items": [{"t": "paste", "name": "@fm"}]}, {"t": "paste", "name": "@fm2"}]
+                vs = list(range(len(rest) + 1, len(blocks) + 1))
+            elif via == "paste":
                 if appended["t"] == "tag":
                     continue
                 blocks = fd[:-1] + [{"t": "paste", "name": "@fm"}, {"t": "macro", "name": "@fm", "items": [appended]}]
